@@ -47,7 +47,8 @@ RULE = (
     '(cycle, path, star, spider, Pruefer tree, K_{m,n}, two copies of a tree joined by an edge or through a middle node, the shape of '
     'the comment at ismags.py:872, disjoint unions of 2-3 small graphs, prism, wheel, cube, Petersen, complete graph), optionally with a '
     'few nodes/edges recoloured; host = the same structure re-keyed, or extended by extra nodes, or two copies (optionally bridged), '
-    'or one pair/colour perturbed, or a random graph.  lcs: pattern 1-7 nodes (cycles and prisms up to 9 and 8 nodes) vs host 1-9 nodes, '
+    'or one pair/colour perturbed, or a random graph; the symmetry-reduced enumeration is additionally run against two further re-keyed/re-ordered '
+    'copies of the same host (|I|, A unchanged).  lcs: pattern 1-7 nodes (cycles and prisms up to 9 and 8 nodes) vs host 1-9 nodes, '
     'independent, or host = damaged pattern, or small symmetric families.  Non-trivial: isomorphism cases with |I| >= 2 and |A| >= 2 (the symmetry reduction has '
     'work to do); LCS cases whose maximum common size is smaller than the pattern (the shrinking search ran).')
 ASSUMPTIONS = [
@@ -180,7 +181,53 @@ def _show(mapping):
         return repr(mapping)
 
 
-def check_isomorphisms(host, pat, case):
+def _check_symmetric(ismags, host, pat, case, pnodes, auts, n_ref, ref_keys, ref):
+    """
+    symmetry=True must yield exactly one representative of every orbit of the
+    n_ref isomorphisms under the pattern automorphisms `auts`.  ref_keys/ref
+    (the reference set) may be None for a host that is a relabelled copy of a
+    host for which n_ref is known; then "none missed" is decided by counting.
+    """
+    nm, em = case['nm'], case['em']
+    got_sym = list(itertools.islice(ismags.subgraph_isomorphisms_iter(), n_ref + 1))
+    mark = {}
+    for idx, mapping in enumerate(got_sym):
+        reason = why_invalid(host, pat, mapping, nm, em, pnodes)
+        if reason:
+            raise Violation('unsound', 'subgraph_isomorphisms_iter(symmetry=True) yielded %s which is not an induced '
+                            'subgraph isomorphism: %s' % (_show(mapping), reason))
+        if not auts:
+            raise HarnessError('mapping %s is valid by definition but VF2 lists no isomorphism' % _show(mapping))
+        inv = {p: g for g, p in mapping.items()}
+        if ref_keys is not None and tuple(inv[p] for p in pnodes) not in ref_keys:
+            raise HarnessError('mapping %s is valid by definition but VF2 does not list it' % _show(mapping))
+        for sigma in auts:
+            k = tuple(inv[sigma[p]] for p in pnodes)
+            if ref_keys is not None and k not in ref_keys:
+                raise HarnessError('orbit element not in I')
+            other = mark.get(k)
+            if other is not None:
+                if other == idx:
+                    raise HarnessError('automorphism group does not act freely')
+                raise Violation('sym-orbit-twice', 'symmetry=True yielded two mappings that differ only by a symmetry of the '
+                                'pattern: %s and %s (|I|=%d |A|=%d, expected %d mappings)' % (
+                                    _show(got_sym[other]), _show(mapping), n_ref, len(auts), n_ref // len(auts)))
+            mark[k] = idx
+    if len(mark) > n_ref:
+        raise HarnessError('more orbit elements than isomorphisms')
+    if len(mark) != n_ref:
+        if ref is not None:
+            inv_key = lambda m: tuple({p: g for g, p in m.items()}[p] for p in pnodes)
+            missing = _show(next(m for m in ref if inv_key(m) not in mark))
+        else:
+            missing = '(one of the %d isomorphisms onto a relabelled copy of the host)' % n_ref
+        raise Violation('sym-orbit-missed', 'symmetry=True yielded %d mappings, expected %d (|I|=%d |A|=%d); isomorphism %s '
+                        'is not symmetry-equivalent to any yielded mapping' % (
+                            len(got_sym), n_ref // len(auts), n_ref, len(auts), missing))
+    return got_sym
+
+
+def check_isomorphisms(host, pat, case, more_hosts=()):
     nm, em = case['nm'], case['em']
     pnodes = sorted(pat)
     classes = []
@@ -228,33 +275,12 @@ def check_isomorphisms(host, pat, case):
 
     # --- symmetry=True (the default): exactly one representative per orbit of I under A
     ismags = make_ismags(host, pat, case)
-    got_sym = list(itertools.islice(ismags.subgraph_isomorphisms_iter(), len(ref) + 1))
-    mark = {}
-    for idx, mapping in enumerate(got_sym):
-        reason = why_invalid(host, pat, mapping, nm, em, pnodes)
-        if reason:
-            raise Violation('unsound', 'subgraph_isomorphisms_iter(symmetry=True) yielded %s which is not an induced '
-                            'subgraph isomorphism: %s' % (_show(mapping), reason))
-        if key(mapping) not in ref_keys:
-            raise HarnessError('mapping %s is valid by definition but VF2 does not list it' % _show(mapping))
-        inv = {p: g for g, p in mapping.items()}
-        for sigma in auts:
-            k = tuple(inv[sigma[p]] for p in pnodes)
-            if k not in ref_keys:
-                raise HarnessError('orbit element not in I')
-            other = mark.get(k)
-            if other is not None:
-                if other == idx:
-                    raise HarnessError('automorphism group does not act freely')
-                raise Violation('sym-orbit-twice', 'symmetry=True yielded two mappings that differ only by a symmetry of the '
-                                'pattern: %s and %s (|I|=%d |A|=%d, expected %d mappings)' % (
-                                    _show(got_sym[other]), _show(mapping), len(ref), len(auts), len(ref) // len(auts)))
-            mark[k] = idx
-    if len(mark) != len(ref_keys):
-        missing = next(m for m in ref if key(m) not in mark)
-        raise Violation('sym-orbit-missed', 'symmetry=True yielded %d mappings, expected %d (|I|=%d |A|=%d); isomorphism %s '
-                        'is not symmetry-equivalent to any yielded mapping' % (
-                            len(got_sym), len(ref) // len(auts), len(ref), len(auts), _show(missing)))
+    got_sym = _check_symmetric(ismags, host, pat, case, pnodes, auts, len(ref), ref_keys, ref)
+    # --- the same pattern against re-keyed / re-ordered copies of the host: |I| is the same, A is the same
+    for other in more_hosts:
+        if len(other) != len(host) or other.number_of_edges() != host.number_of_edges():
+            raise HarnessError('extra host is not a copy of the host')
+        _check_symmetric(make_ismags(other, pat, case), other, pat, case, pnodes, auts, len(ref), None, None)
 
     # --- the other entry points
     if len(host) == len(pat):
@@ -411,8 +437,11 @@ def run_case(case):
     classes = []
     nontrivial = False
     if 'iso' in case['do']:
-        cls, nt = check_isomorphisms(host, pat, case)
+        more = [build(desc) for desc in case.get('more_hosts', ())]
+        cls, nt = check_isomorphisms(host, pat, case, more)
         classes += cls
+        if more and 'skipped-cap' not in cls:
+            classes.append('more-hosts')
         nontrivial = nontrivial or nt
     if 'lcs' in case['do']:
         cls, nt = check_lcs(host, pat, case)
@@ -813,6 +842,7 @@ def _strategy_symmetric_case(draw, tier):
     nm, em = _match_flags(draw, knc, kec)
     return {'host': draw(_describe(hn, hedges, hnc, hec)),
             'pat': draw(_describe(n, edges, pnc, pec)),
+            'more_hosts': [draw(_describe(hn, hedges, hnc, hec)) for _ in range(2)],
             'nm': nm, 'em': em, 'do': ['iso'], 'cache': draw(st.sampled_from([False, False, False, True])),
             'kind': name}
 
@@ -953,15 +983,22 @@ def _match_refine_branch(params, part_name, case, violation):
     (generator exhausted after the first partial partition) and cells
     (`permutation[0]`), so analyze_symmetry finds too few symmetries of some
     patterns with >= 8 nodes or dies with KeyError in _find_node_edge_color.
-    Matches only those two symptoms, and the first only when the cosets
-    reported by analyze_symmetry really describe fewer symmetries than exist.
+    Matches only the symptoms crash / sym-orbit-twice / sym-self, the latter
+    two only when the cosets reported by analyze_symmetry really describe
+    fewer symmetries than exist.
     """
     pat = build(case['pat'])
     if len(pat) < params.get('min_pattern_nodes', 8):
         return False
     if violation.bucket == 'crash:KeyError:vermouth/ismags.py:_find_node_edge_color':
         return True
-    if violation.bucket != 'sym-orbit-twice':
+    if violation.bucket == 'sym-self':
+        # the cache sub-check matches the colour-less pattern onto itself
+        blank = nx.Graph()
+        blank.add_nodes_from(pat.nodes, c=0)
+        blank.add_edges_from(pat.edges, c=0)
+        pat = blank
+    elif violation.bucket != 'sym-orbit-twice':
         return False
     ismags = make_ismags(pat, pat, case)
     _, cosets = ismags.analyze_symmetry(pat, ismags._sgn_partitions, ismags._sge_colors)  # pylint: disable=protected-access
